@@ -110,6 +110,7 @@ type flags struct {
 	keep                        bool
 	verbose                     bool
 	onlyTouched                 bool
+	fnFilter                    string
 	jobs                        int
 }
 
@@ -126,6 +127,8 @@ func parseFlags(args []string) *flags {
 	fs.BoolVar(&f.verbose, "v", false, "verbose")
 	fs.BoolVar(&f.onlyTouched, "touched", true, "selftest: re-verify only functions that depend on the patched files (modular verification)")
 	fs.IntVar(&f.jobs, "j", 10, "parallel obligations")
+	fs.BoolVar(&useHybrid, "hybrid", false, "try a hybrid script (flat quantified hypotheses left to the solver) before the generator-instantiated one")
+	fs.StringVar(&f.fnFilter, "func", "", "only verify functions whose key contains this text (debugging; evidence is not valid)")
 	fs.Parse(args)
 	if s := os.Getenv("VERIF_SEED"); s != "" && f.seed == 0 {
 		fmt.Sscanf(s, "%d", &f.seed)
@@ -138,13 +141,13 @@ func parseFlags(args []string) *flags {
 
 // collect generates all obligations of a property.
 type propWork struct {
-	execs   []*Exec
-	obls    []*Obligation
-	oblExec map[*Obligation]*Exec
-	funcs   []string
+	execs      []*Exec
+	obls       []*Obligation
+	oblExec    map[*Obligation]*Exec
+	funcs      []string
 	engineErrs []string
-	db      *ContractDB
-	ld      *Loader
+	db         *ContractDB
+	ld         *Loader
 }
 
 // touchesFiles: fn is defined in one of the files, or inlines (transitively) a contract-less function
@@ -253,6 +256,9 @@ func collect(f *flags, overlay map[string][]byte) (*propWork, error) {
 			continue
 		}
 		if onlyFiles != nil && !touchesFiles(ld, db, fn, onlyFiles, map[*ssa.Function]bool{}, 0) {
+			continue
+		}
+		if f.fnFilter != "" && !strings.Contains(k, f.fnFilter) {
 			continue
 		}
 		x, err := VerifyFunction(ld, db, fn, db.Funcs[k])
